@@ -6,9 +6,10 @@ pub mod c13;
 pub mod c15;
 pub mod c16;
 pub mod c17;
+pub mod c20;
 pub mod toy;
 
-pub const ALL: &[&str] = &["C12", "C13", "C15", "C16", "C17", "TOY"];
+pub const ALL: &[&str] = &["C12", "C13", "C15", "C16", "C17", "C20", "TOY"];
 
 pub fn registry(id: &str) -> Box<dyn Driver> {
     match id {
@@ -17,7 +18,16 @@ pub fn registry(id: &str) -> Box<dyn Driver> {
         "C15" => c15::driver(),
         "C16" => c16::driver(),
         "C17" => c17::driver(),
+        "C20" => c20::driver(),
         "TOY" => toy::driver(),
         _ => panic!("MACHINERY: unknown property id {id}"),
+    }
+}
+
+/// Driver-defined auxiliary computations run in a fresh process (`l21mc aux <id> ..`).
+pub fn aux(id: &str, args: &[String]) -> String {
+    match id {
+        "C20" => c20::aux(args),
+        _ => panic!("MACHINERY: no aux for {id}"),
     }
 }
